@@ -64,6 +64,20 @@ fn c13() -> &'static dyn Check {
     })
 }
 
+static C05CONC: shuttle_eng::ShuttleCheck = shuttle_eng::ShuttleCheck { prop: "C05" };
+static C05_COMPOSITE: std::sync::OnceLock<framework::CompositeCheck> = std::sync::OnceLock::new();
+
+fn c05() -> &'static dyn Check {
+    C05_COMPOSITE.get_or_init(|| framework::CompositeCheck {
+        prop: "C05",
+        engine: "E2 cluster-sim (sequential install model) + E4 shuttle-sim (concurrent installs)",
+        parts: vec![(&C05, 15), (&C05CONC, 1)],
+        quick: (1600, 45),
+        thorough: (200_000, 1200),
+        level: "exploration",
+    })
+}
+
 fn lookup(id: &str) -> Option<&'static dyn Check> {
     Some(match id {
         "C01" => &C01,
@@ -78,7 +92,7 @@ fn lookup(id: &str) -> Option<&'static dyn Check> {
         "C15" => &C15,
         "C16" => &C16,
         "C17" => &C17,
-        "C05" => &C05,
+        "C05" => c05(),
         "C09" => &C09,
         "C20" => &C20,
         "C02" => &C02,
